@@ -44,6 +44,12 @@ namespace tfel::math {
     using type = verif::Sym;
   };
 
+  //! \brief cast the value to the base type (identity for Sym)
+  constexpr verif::Sym& base_type_cast(verif::Sym& v) noexcept { return v; }
+  constexpr const verif::Sym& base_type_cast(const verif::Sym& v) noexcept {
+    return v;
+  }
+
   //! exact constants
   template <>
   struct CsteBase<verif::Sym> {
